@@ -282,6 +282,7 @@ theorem gen_setattr (fs : List (String × V)) (name : List Char) (value : V) :
     | error e => rfl
     | ok t => simp [objSetK, cStr, pairM, cNone]
 
-theorem translatedPolicy_covers : translatedPolicy = ["_calculate_type", "_check_field_type", "__setattr__"] := by decide
+theorem translatedPolicy_covers :
+    translatedPolicy = ["_calculate_type", "_check_field_type", "__setattr__"] := by decide
 
 end Vakt.GenEquiv
